@@ -480,9 +480,40 @@ func (l *loopState) onStageComplete(
 
 		// Placing data from the output into the general data structure
 		l.data[WorkflowStepsKey].(map[string]any)[stepID].(map[string]any)[*previousStage] = map[string]any{}
-		l.data[WorkflowStepsKey].(map[string]any)[stepID].(map[string]any)[*previousStage].(map[string]any)[*previousStageOutputID] = *previousStageOutput
+		stored := l.serializedStageOutput(stepID, *previousStage, *previousStageOutputID, *previousStageOutput)
+		l.data[WorkflowStepsKey].(map[string]any)[stepID].(map[string]any)[*previousStage].(map[string]any)[*previousStageOutputID] = stored
 	}
 	l.notifySteps()
+}
+
+// serializedStageOutput returns the output of a stage in the serialized form that expressions and schema
+// validation work on. Plugin outputs arrive serialized, but the engine-generated outputs (deploy_failed.error,
+// crashed.error) are handed over as Go structs: those are serialized with the schema the lifecycle declares
+// for them. Anything else is passed through unchanged.
+func (l *loopState) serializedStageOutput(stepID string, stageID string, outputID string, data any) any {
+	value := reflect.ValueOf(data)
+	for value.Kind() == reflect.Pointer && !value.IsNil() {
+		value = value.Elem()
+	}
+	if value.Kind() != reflect.Struct {
+		return data
+	}
+	for _, stage := range l.lifecycles[stepID].Stages {
+		if stage.ID != stageID {
+			continue
+		}
+		output, ok := stage.Outputs[outputID]
+		if !ok {
+			return data
+		}
+		serialized, err := output.Schema().Serialize(data)
+		if err != nil {
+			l.logger.Warningf("failed to serialize the %s.%s output of step %s (%s)", stageID, outputID, stepID, err.Error())
+			return data
+		}
+		return serialized
+	}
+	return data
 }
 
 // Marks the outputs of that stage unresolvable.
